@@ -270,7 +270,7 @@ def deffilter_body(t, cfg="quick"):
             os.environ.pop("MONKEYTYPE_TRACE_MODULES", None)
         else:
             os.environ["MONKEYTYPE_TRACE_MODULES"] = allow
-        got = MC.default_code_filter.__wrapped__(code)
+        got = getattr(MC.default_code_filter, "__wrapped__", MC.default_code_filter)(code)  # (memoisation bypassed when there is one)
     finally:
         if saved is None:
             os.environ.pop("MONKEYTYPE_TRACE_MODULES", None)
@@ -306,7 +306,7 @@ def describe(name, args):
     tape = [args[f"t{i}"] for i in range(len([k for k in args if k.startswith("t")]))]
     import monkeytype.config as MC2
 
-    real = MC2.default_code_filter.__wrapped__
+    real = getattr(MC2.default_code_filter, "__wrapped__", MC2.default_code_filter)
     out = {}
 
     def spy(code):
